@@ -904,33 +904,33 @@ pub fn props() -> Vec<(Box<dyn PropDyn>, u32, u32)> {
     vec![
         (
             Box::new(Prop::new("fft", fft_case, check_fft)),
-            2400,
-            30000,
+            12000,
+            100000,
         ),
         (
             Box::new(Prop::new("ifft", fft_case, check_ifft)),
-            1600,
-            20000,
+            8000,
+            60000,
         ),
         (
             Box::new(Prop::new("pools", pool_case, check_pools)),
-            48,
-            400,
+            96,
+            800,
         ),
         (
             Box::new(Prop::new("poly", poly_case, check_poly)),
-            3000,
-            40000,
+            20000,
+            200000,
         ),
         (
             Box::new(Prop::new("batch_inv", inv_case, check_inv)),
-            2000,
-            20000,
+            10000,
+            100000,
         ),
         (
             Box::new(Prop::new("closed", closed_case, check_closed)),
-            1600,
-            20000,
+            6000,
+            60000,
         ),
     ]
 }
